@@ -20,16 +20,46 @@ def fn_shas(vc, features=None, no_default=None):
         out, log = extract.assemble(unit, src)
     except extract.Undecided as e:
         return None, str(e)
-    return {f['fn']: f['src_sha'] for f in log}, None
+    return {f['fn']: f['src_sha'] for f in log if not f.get('external_body')}, None
 
 
-def compare(vc, features, no_default=False):
+_COVER_CACHE = {}
+
+
+def covering(covered_by, features, no_default=False):
+    """{fn: [unit, ...]} for the functions whose body is verified in one of the variant units `covered_by` AND whose
+    text, as that unit extracts it under its own declared features, is the text under `features` (so the variant unit's proof
+    is a proof about the feature set being compared)."""
+    key = (tuple(covered_by), tuple(features), no_default)
+    if key in _COVER_CACHE:
+        return _COVER_CACHE[key]
+    out = {}
+    for u in covered_by:
+        vc = os.path.join(extract.VERIF, 'contracts', u + '.vc')
+        own, err = fn_shas(vc)
+        if own is None:
+            continue
+        unit = extract.parse_contract_file(vc)
+        if sorted(unit.features) == sorted(features) and bool(unit.no_default) == bool(no_default):
+            under = own
+        else:
+            under, err = fn_shas(vc, features, no_default)
+            if under is None:
+                continue
+        for fn, sha in own.items():
+            if under.get(fn) == sha:
+                out.setdefault(fn, []).append(u)
+    _COVER_CACHE[key] = out
+    return out
+
+
+def compare(vc, features, no_default=False, covered_by=None):
     base, err = fn_shas(vc)
     if base is None:
         raise extract.Undecided('default expansion: ' + err)
     other, err = fn_shas(vc, features, no_default)
     rep = {'unit': os.path.basename(vc), 'features': list(features), 'no_default': no_default,
-           'same': [], 'different': [], 'missing_or_unextractable': None}
+           'same': [], 'different': [], 'different_covered_by': {}, 'different_uncovered': [], 'missing_or_unextractable': None}
     if other is None:
         rep['missing_or_unextractable'] = err
         return rep
@@ -40,6 +70,16 @@ def compare(vc, features, no_default=False):
             rep['same'].append(fn)
         else:
             rep['different'].append(fn)
+    if covered_by is not None:
+        cov = covering(covered_by, features, no_default)
+        for fn in rep['different']:
+            name = fn.replace(' (absent)', '')
+            if fn.endswith('(absent)'):
+                continue    # the function does not exist in that build: nothing to verify there (it stays listed)
+            if name in cov:
+                rep['different_covered_by'][fn] = cov[name]
+            else:
+                rep['different_uncovered'].append(fn)
     return rep
 
 
@@ -58,7 +98,9 @@ def unsafe_release_invariants(vc):
     import re
     import rsparse
     unit = extract.parse_contract_file(vc)
-    src_dev, _ = extract.expand(unit.features, unit.no_default)
+    # baseline: the dev-profile expansion WITH the feature (functions whose text differs under `unsafe` are verified in that
+    # form by the variant units — feature check `unsafe (dev profile)` demands it; for all others the text is the default one)
+    src_dev, _ = extract.expand(list(unit.features) + ['unsafe'], unit.no_default)
     src_rel, _ = extract.expand(list(unit.features) + ['unsafe'], unit.no_default, release=True)
     rep = {'unit': os.path.basename(vc), 'functions': 0, 'assert_unchecked_sites': 0, 'covered': 0, 'uncovered': [], 'unextractable': None}
 
@@ -96,4 +138,174 @@ def unsafe_release_invariants(vc):
                 rep['covered'] += 1
             else:
                 rep['uncovered'].append('%s: %s' % (fn, c2[:100]))
+    return rep
+
+
+# ---------------------------------------------------------------------------------------------------------------------
+# whole-crate comparison (every function under contract in ANY default-feature unit), independent of unit assembly
+
+import glob
+import hashlib
+import re
+import rsparse
+
+_IDX = {}
+
+
+def fn_index(features=(), no_default=False, release=False):
+    """{key: (sha, item)} for every fn with a body in the expansion; key = module | normalised impl header | fn name."""
+    k = (tuple(sorted(features)), bool(no_default), bool(release))
+    if k in _IDX:
+        return _IDX[k]
+    src, _ = extract.expand(list(features), no_default, release)
+    items = rsparse.parse_items(src, 0, len(src))
+    idx = {}
+    by_start = {}
+
+    def add(key, it):
+        if it.body_open is None:
+            return
+        sha = hashlib.sha256(it.src[it.header_start:it.end].encode()).hexdigest()[:16]
+        n = 2
+        k0 = key
+        while key in idx:       # same name twice (cfg-dependent duplicates): keep both, numbered in source order
+            key = '%s#%d' % (k0, n)
+            n += 1
+        idx[key] = (sha, it)
+        by_start[it.start] = key
+
+    def walk(its, path):
+        for it in its:
+            if it.kind == 'mod':
+                walk(it.children or [], path + [it.name])
+            elif it.kind == 'impl':
+                hdr = rsparse.norm_ws(re.sub(r'\s+', ' ', it.header))
+                for c in it.children or []:
+                    if c.kind == 'fn':
+                        add('%s|%s|%s' % ('::'.join(path), hdr, c.name), c)
+            elif it.kind == 'trait':
+                for c in it.children or []:
+                    if c.kind == 'fn':
+                        add('%s|trait %s|%s' % ('::'.join(path), it.name, c.name), c)
+            elif it.kind == 'fn':
+                add('%s||%s' % ('::'.join(path), it.name), it)
+    walk(items, [])
+    _IDX[k] = (idx, by_start, items)
+    return _IDX[k]
+
+
+_CONTRACTED = {}
+
+
+def contracted(unit_names=None):
+    """{key: [units]}: functions whose body is verified by some unit, in the expansion of that unit's OWN feature set.
+    unit_names=None -> every default-feature unit."""
+    ck = tuple(unit_names) if unit_names is not None else None
+    if ck in _CONTRACTED:
+        return _CONTRACTED[ck]
+    out = {}
+    errs = []
+    if unit_names is None:
+        vcs = sorted(glob.glob(os.path.join(extract.VERIF, 'contracts', '*.vc')))
+    else:
+        vcs = [os.path.join(extract.VERIF, 'contracts', u + '.vc') for u in unit_names]
+    for vc in vcs:
+        unit = extract.parse_contract_file(vc)
+        if not unit.name:
+            continue
+        if unit_names is None and (unit.features or unit.no_default):
+            continue
+        idx, by_start, items = fn_index(unit.features, unit.no_default)
+        try:
+            plan = extract.collect_unit(items, unit)
+        except extract.Undecided as e:
+            errs.append('%s: %s' % (unit.name, e))
+            continue
+        for mp, entries in plan.items():
+            for e in entries:
+                for f, fs in e['fns']:
+                    if fs.external_body or fs.no_body:
+                        continue
+                    key = by_start.get(f.start)
+                    if key is not None:
+                        out.setdefault(key, {})[unit.name] = idx[key][0]
+    _CONTRACTED[ck] = (out, errs)
+    return _CONTRACTED[ck]
+
+
+def compare_all(features, no_default=False, covered_by=()):
+    """Every function under contract in a default-feature unit: same text under the other feature set, or the differing text is
+    the text a variant unit (covered_by) verifies, or the function does not exist there."""
+    base, errs = contracted(None)
+    rep = {'kind': 'same_text_all', 'features': list(features), 'no_default': no_default, 'functions': len(base),
+           'same': 0, 'absent': [], 'different_covered_by': {}, 'different_uncovered': [], 'feature_only_functions': 0,
+           'feature_only_not_under_contract': [], 'errors': list(errs)}
+    didx, _, _ = fn_index((), False)
+    oidx, _, _ = fn_index(features, no_default)
+    cov, cerrs = contracted(list(covered_by)) if covered_by else ({}, [])
+    rep['errors'] += cerrs
+    for key in sorted(base):
+        name = key.replace('|', ' :: ')
+        if key not in oidx:
+            rep['absent'].append(name)
+        elif oidx[key][0] == didx[key][0]:
+            rep['same'] += 1
+        else:
+            us = [u for u, sha in cov.get(key, {}).items() if sha == oidx[key][0]]
+            if us:
+                rep['different_covered_by'][name] = us
+            else:
+                rep['different_uncovered'].append(name)
+    for key in sorted(oidx):
+        if key not in didx:
+            it = oidx[key][1]
+            attrs = it.src[it.attrs_start:it.header_start] if it.attrs_start is not None else ''
+            if 'automatically_derived' in attrs:
+                continue
+            rep['feature_only_functions'] += 1
+            if key not in cov:
+                rep['feature_only_not_under_contract'].append(key.replace('|', ' :: '))
+    return rep
+
+
+def release_invariants_all():
+    """Every function under contract: the conditions handed to core::hint::assert_unchecked() in the `--release --features unsafe`
+    expansion are among the debug_assert!/invariant! conditions of the dev-profile `unsafe` expansion of the same function
+    (which rule R1 turns into proof obligations; that those dev-profile texts are verified is what compare_all(['unsafe']) checks)."""
+    base, errs = contracted(None)
+    vb, verrs = contracted(['generator_unsafe', 'text_unsafe', 'unchecked'])
+    dev, _, _ = fn_index(['unsafe'], False)
+    rel, _, _ = fn_index(['unsafe'], False, release=True)
+    rep = {'kind': 'unsafe_release_invariants_all', 'functions': 0, 'assert_unchecked_sites': 0, 'covered': 0, 'uncovered': [],
+           'errors': list(errs) + list(verrs)}
+
+    def conds(it, pattern):
+        body = it.src[it.body_open:it.body_close + 1]
+        cs = []
+        for m in re.finditer(pattern, body):
+            po = body.index('(', m.end() - 1)
+            pc = rsparse.match_delim(body, po)
+            cs.append(rsparse.norm_ws(body[po + 1:pc]).strip())
+        return cs
+
+    def strip_par(c):
+        c = c.strip()
+        while c.startswith('(') and rsparse.match_delim(c, 0) == len(c) - 1:
+            c = c[1:-1].strip()
+        return c
+    for key in sorted(set(base) | set(vb)):
+        if key not in rel or key not in dev:
+            continue
+        rep['functions'] += 1
+        body = dev[key][1].src[dev[key][1].body_open:dev[key][1].body_close + 1]
+        devc = set(strip_par(c) for c in conds(dev[key][1], r'if true \{\s*if !\s*\('))
+        # unparenthesised `if true { if !f(x) {`
+        for m in re.finditer(r'if true \{\s*if !\s*([^({][^{]*?)\s*\{', body):
+            devc.add(strip_par(rsparse.norm_ws(m.group(1))))
+        for c in conds(rel[key][1], r'assert_unchecked\s*\('):
+            rep['assert_unchecked_sites'] += 1
+            if strip_par(c) in devc:
+                rep['covered'] += 1
+            else:
+                rep['uncovered'].append('%s: %s' % (key.replace('|', ' :: '), c[:100]))
     return rep
